@@ -26,10 +26,12 @@ NA = {
  "C01": "emergent convergence of a network of interacting instances over topologies, delays and fault scripts: no per-instance structural clause implies it and a network model would be a different technique family; its per-instance ingredients are decided under C05/C06/C08/C11/C12",
  "C02": "closed-loop numerical convergence and steady-state error of the Kalman servo over real-valued jitter realisations: quantifies over runtime trajectories no static argument in reach can bound; the only structural clause (slew, never step, below threshold) is decided under C13",
 }
+# a rule module is registered only when it is silent (or every report is a listed known finding) on the unchanged tree
+ENABLED = set(open(os.path.join(V, "tools", "enabled.txt")).read().split())
 checks = []
 na = [{"property_id": k, "reason": v} for k, v in NA.items()]
 for pid in sorted(META):
-    if os.path.exists(os.path.join(V, "engine", "rules", pid.lower() + ".py")):
+    if pid in ENABLED and os.path.exists(os.path.join(V, "engine", "rules", pid.lower() + ".py")):
         cat, tech, text, note = META[pid]
         checks.append({
             "property_id": pid,
